@@ -327,9 +327,10 @@ def _nonempty(prog, rep):
         bad = unguarded_reads(fn, b, pcs)
         if not bad:
             rep.ok("C02.total", f"{q}:element-reads", fn.where(), "no element of a possibly empty sequence is read")
-        for st, src, why in bad:
-            rep.fail("C02.total", f"{q}:{src}", fn.where(st), f"{src} is read although {why}: when the densest cell alone holds more than 1 - alpha no cell is "
-                     "selected and the constructor ends in an IndexError (not caught by the RuntimeWarning handler) instead of the empty region")
+        if bad:
+            st, src, why = bad[0]
+            rep.fail("C02.total", f"{q}:element-reads", fn.where(st), f"{', '.join(s_ for _st, s_, _w in bad)} read although {why}: when the densest cell alone holds more "
+                     "than 1 - alpha no cell is selected and the constructor ends in an IndexError (not caught by the RuntimeWarning handler) instead of the empty region")
 
 
 def _own_calls(st):
